@@ -264,6 +264,22 @@ def check(tier: str) -> Result:
     n_keys = borrow(res, "c10", {"C10.R1a": "C13.R5"})
     # ---- R7: the same obligations on the batched sibling (the property is quantified over jit / vmap / scan use)
     n_sib = borrow(res, "c14", {"C14.R2": "C13.R7"})
+    # ---- R3 (default): without an explicit flag the wrapper adds nothing to the timestep: next_obs_in_extras defaults to False
+    import ast as _ast
+    for cname in ("AutoResetWrapper", "VmapAutoResetWrapper"):
+        wci = tree.classes.get(W + cname)
+        winit = wci.methods.get("__init__") if wci is not None else None
+        if winit is None:
+            continue
+        a_ = winit.node.args
+        names_ = [x.arg for x in a_.args]
+        dflt_ = dict(zip(names_[len(names_) - len(a_.defaults):], a_.defaults))
+        flagp = [n_ for n_ in names_[2:]] or []
+        fl = flagp[0] if flagp else None
+        d_ = dflt_.get(fl)
+        okd = isinstance(d_, _ast.Constant) and d_.value is False
+        res.add("C13.R3", winit.loc(), f"wrappers.{cname}.__init__", "the next-observation flag defaults to False (a plain wrapper returns the inner timesteps unchanged)", okd if d_ is not None else None,
+                f"default of `{fl}` is {_ast.unparse(d_) if d_ is not None else None}")
     n_base = base_wrapper_obligations(res, "C13.R8", tree)
     res.analysed = {"generator_key_obligations": n_keys, "classes": ["jumanji.wrappers.AutoResetWrapper"], "functions": sorted(vfg.visited_funcs), "state_leaf_shapes_compared": n_shapes}
     res.assumptions = ["the wrapped environment is abstract (any Environment); lax.cond selects one branch result",
